@@ -915,3 +915,105 @@ def rule_chain(c: Ctx) -> RuleResult:
     r.functions = 3
     r.floor = 12
     return r
+
+
+# ------------------------------------------------------------------------------------------------ FOUND
+def rule_found(c: Ctx) -> RuleResult:
+    """`Ruler.__find__` answers -1 for an unknown name.  Every use of its result as a *position* (subscript, insert index, operand
+    of arithmetic, argument of a helper that uses it so) must be dominated by a test, made on the result itself, that excludes
+    -1 - otherwise an unknown name is silently treated as a position (`after("typo", ...)` inserts at 0 instead of raising)."""
+    from ..dataflow import solve
+    from ..facts import FactsProblem, PartitionedFacts, ZERO
+    from .total_rules import _truthiness
+    r = RuleResult("FOUND", "the -1 sentinel of Ruler.__find__ is excluded by a test on the result itself before the result is used as a "
+                            "position: an unknown rule name fails instead of changing what is applied")
+    ci = c.p.cls("Ruler")
+    find = ci.methods.get("__find__")
+    if find is None:
+        raise AnchorError("Ruler.__find__ not found")
+    rets = [x for x in own_nodes(find.node) if isinstance(x, ast.Return) and x.value is not None]
+    if not any(isinstance(y, ast.UnaryOp) and isinstance(y.op, ast.USub) and isinstance(y.operand, ast.Constant) and y.operand.value == 1
+               for x in rets for y in ast.walk(x.value)):
+        raise AnchorError("Ruler.__find__ no longer returns -1 for an unknown name")
+    nsites = 0
+
+    def states_at(f: Func, node: ast.AST, flags: list[str]) -> list[list]:
+        """facts at the owners of node: the plain analysis first, then one partitioning per boolean parameter"""
+        cfg = c.cfg(f)
+        outs = []
+        res = c.facts(f)[1]
+        outs.append([res.get(nd.id) for nd in cfg.owner(node) if res.get(nd.id) is not None])
+        for fl in flags:
+            pr = solve(cfg, PartitionedFacts(FactsProblem(cfg, None, c.eff.call_kills(f), c.bool_summary), fl, _truthiness))
+            zs = []
+            for nd in cfg.owner(node):
+                st = pr.get(nd.id)
+                if st is not None:
+                    zs += list(st.values())
+            outs.append(zs)
+        return outs
+
+    def excluded(z, x: str) -> bool:
+        z = z.copy()
+        z.close()
+        return z.entails(ZERO, x, 0) or any(a == x and b == ZERO and k == -1 for (a, b, k) in z.ne) or any(b == x and a == ZERO and k == 1 for (a, b, k) in z.ne) \
+            or z.holds(f"{x} == -1", False) or z.holds(f"{x} < 0", False) or z.holds(f"{x} >= 0", True) or z.holds(f"{x} > -1", True)
+
+    def judge_name(f: Func, x: str, def_stmt: ast.AST | None, why_ctx: str, depth: int) -> str:
+        """'' if every position-use of local / parameter x in f is guarded, else the reason"""
+        flags = [a.arg for a in f.node.args.args + f.node.args.kwonlyargs if a.arg not in ("self", x)]
+        for u in [n for n in own_nodes(f.node) if isinstance(n, ast.Name) and n.id == x and isinstance(n.ctx, ast.Load)]:
+            par = f.module.parents.get(u)
+            if isinstance(par, ast.Compare):
+                continue
+            if isinstance(par, ast.Call) and u in par.args and depth < 2:
+                cs = c.cg.site_of.get(par)
+                if cs is not None and len(cs.callees) == 1 and cs.kind in ("direct", "method") and cs.callees[0].cls == f.cls:
+                    g = cs.callees[0]
+                    pn = next((p for p in [a.arg for a in g.node.args.args] if c.eff.arg_for_param(cs, g, p) is u), None)
+                    alts = states_at(f, u, flags)
+                    if any(zs and all(excluded(z, x) for z in zs) for zs in alts):
+                        continue
+                    if pn is not None:
+                        w = judge_name(g, pn, None, f"parameter `{pn}` of {g.short}", depth + 1)
+                        if w:
+                            return w
+                        continue
+            alts = states_at(f, u, flags)
+            if any(zs and all(excluded(z, x) for z in zs) for zs in alts):
+                continue
+            return (f"{why_ctx}: `{x}` is used at line {getattr(u, 'lineno', '?')} of {f.short} (`{U(par)[:50]}`) on a path where no test of `{x}` "
+                    f"itself has excluded -1")
+        return ""
+    for f in sorted(c.p.all_funcs(), key=lambda g: g.qual):
+        for cs in c.cg.sites.get(f, []):
+            if find not in cs.callees:
+                continue
+            nsites += 1
+            K = cs.node
+            par = f.module.parents.get(K)
+            key = f"{f.short}|{alpha(f, par if par is not None else K)[:60]}"
+            why = ""
+            if isinstance(par, ast.Compare):
+                pass
+            elif isinstance(par, (ast.Assign, ast.AnnAssign)) and par.value is K and (
+                    (isinstance(par, ast.Assign) and len(par.targets) == 1 and isinstance(par.targets[0], ast.Name)) or
+                    (isinstance(par, ast.AnnAssign) and isinstance(par.target, ast.Name))):
+                x = par.targets[0].id if isinstance(par, ast.Assign) else par.target.id
+                why = judge_name(f, x, par, "result of __find__", 0)
+            elif isinstance(par, ast.Call) and K in par.args:
+                cs2 = c.cg.site_of.get(par)
+                g = cs2.callees[0] if cs2 is not None and len(cs2.callees) == 1 and cs2.kind in ("direct", "method") else None
+                pn = next((p for p in [a.arg for a in g.node.args.args] if c.eff.arg_for_param(cs2, g, p) is K), None) if g is not None else None
+                why = judge_name(g, pn, None, f"result of __find__ passed as `{pn}` to {g.short}", 1) if g is not None and pn is not None else \
+                    "the result of __find__ is passed to a call that cannot be followed"
+            else:
+                why = (f"the result of __find__ enters `{U(par)[:60]}` directly: the test that follows is made on a derived value, which "
+                       f"cannot tell -1 (unknown name) from a real position")
+            r.add(key, c.where(f, K), f.short, U(par if par is not None else K)[:70], "violation" if why else "discharged",
+                  (why + " - an unknown rule name is treated as a position instead of failing") if why else
+                  "the result is compared with the sentinel before every use as a position")
+    if nsites < 3:
+        raise AnchorError(f"only {nsites} calls of Ruler.__find__ found")
+    r.floor = 3
+    return r
